@@ -279,3 +279,47 @@ func Harness_C01_encrypted() {
 		verifReach("accepted-by-response-signature")
 	}
 }
+
+// Harness_C03_destination: the Destination rule on concrete URLs - the ACS URL, the URL at which the
+// response was received given in origin form (what net/http hands a handler) or in absolute form, and
+// Destinations on the right host, on another host with the same path, relative, or absent - for a
+// signed and an unsigned Response around a signed assertion.
+func Harness_C03_destination() {
+	r := &spFlowRun{}
+	r.sp = verifSP("sp")
+	acs, perr := url.Parse("https://sp.example.com/saml2/acs")
+	verifAssume(perr == nil)
+	r.sp.AcsURL = *acs
+	verifTolerances()
+	verifAssume(MaxClockSkew < time.Hour)
+	r.now = verifNondetTime("now")
+	verifAssume(r.now.After(time.Unix(0, 0)))
+	now := r.now
+	TimeNow = func() time.Time { return now }
+	r.ids = []string{"id-request"}
+	curs := []string{"/saml2/acs", "https://sp.example.com/saml2/acs", "/saml2/acs?x=1", "https://proxy.example.net/saml2/acs"}
+	cur, cerr := url.Parse(curs[verifChoose("currentURL", len(curs))])
+	verifAssume(cerr == nil)
+	r.cur = *cur
+	r.d = verifValidDoc("doc", 1, r.sp, r.ids, r.now, true)
+	if len(r.d.Assertions) != 1 {
+		return
+	}
+	r.d.Assertions[0].Sign = 1
+	dests := []string{"https://sp.example.com/saml2/acs", "https://attacker.example.com/saml2/acs", "http://sp.example.com/saml2/acs", "/saml2/acs", "https://proxy.example.net/saml2/acs", ""}
+	r.d.R.Destination = dests[verifChoose("destination", len(dests))]
+	r.a, r.err = r.sp.ParseXMLResponse(verifMaterialise(r.d), r.ids, r.cur)
+	verifNote("err", r.err)
+	if r.err != nil {
+		verifReach("rejected")
+		return
+	}
+	verifReach("accepted")
+	dest := r.d.R.Destination
+	destOK := dest == r.cur.String() || dest == r.sp.AcsURL.String()
+	if r.d.SignResponse != 0 {
+		verifAssert(destOK, "C03/destination/mandatory-and-exact-when-signed")
+	} else {
+		verifAssert(dest == "" || destOK, "C03/destination/exact-when-present")
+	}
+}
